@@ -17,9 +17,14 @@ fn two(a: i32, b: i32) -> i32 { return a + b; }
 fn fails() -> str ! i32 { return "e"!; }
 fn takeP(p: P) -> i32 { return p.X; }
 fn (p: &'P) Bump(d: i32) { p.X = p.X + d; }
+type Q struct { .X: i32, .Y: i64 };
+fn fill64(slot: &'i64) -> i32 { return 1; }
+fn show64(v: &i64) -> i32 { return 1; }
+fn showF(v: &f64) -> i32 { return 1; }
+fn takeRefP(p: &P) -> i32 { return p.X; }
 '''
 PARAMS = "v32: i32, v64: i64, f: f64, s: str, opt: i32?, flag: bool"
-LOCALS = "    let loc: i32 = 0;\n    let pp: P = { .X = 1, .Y = 2 } as P;\n    let dr: []i32 = [1, 2, 3];\n    let lo: i32 = 0;\n    let hi: i32 = 2;\n"
+LOCALS = "    let qq: Q = { .X = 1, .Y = 2 } as Q;\n    let lw: i64 = 5;\n    let loc: i32 = 0;\n    let pp: P = { .X = 1, .Y = 2 } as P;\n    let dr: []i32 = [1, 2, 3];\n    let lo: i32 = 0;\n    let hi: i32 = 2;\n"
 
 # expressions that are ill-typed whatever surrounds them: (rule class, text)
 BAD_EXPR = [
@@ -27,6 +32,8 @@ BAD_EXPR = [
     ("non-bool-logical-operand", "two(1, 2) && flag"), ("non-bool-logical-operand", "!v32"),
     ("arg-count", "two(1)"), ("arg-count", "two(1, 2, 3)"), ("arg-count", "two()"),
     ("arg-type", "two(s, 1)"), ("arg-type", "two(1, v64)"), ("arg-type", "two(f, 1)"), ("arg-type", "takeP(v32)"),
+    # references: the referent types must match exactly (no conversion through a reference), mutability cannot be gained
+    ("arg-type", "fill64(&'loc)"), ("arg-type", "show64(&loc)"), ("arg-type", "showF(&loc)"), ("arg-type", "takeRefP(&qq)"), ("arg-type", "fill64(&lw)"), ("arg-type", "show64(lw)"),
     ("undefined-name", "nope"), ("undefined-name", "nopeFn(1)"), ("undefined-name", "pp.Nope"), ("undefined-name", "nomod::X"),
     ("optional-as-value", "two(opt, 1)"), ("optional-as-value", "opt + 1"),
     ("call-non-function", "v32(1)"), ("call-non-function", "pp(1)"),
@@ -40,7 +47,9 @@ GOOD_EXPR = ["v32", "two(1, 2)", "loc + 1", "(v64 as i32)", "takeP(pp)"]
 BAD_STMT = [
     ("non-bool-condition", "if v32 { }"), ("non-bool-condition", "while v32 { break; }"), ("non-bool-condition", "if s { }"), ("non-bool-condition", "if opt { }"),
     ("non-bool-logical-operand", "let bb: bool = v32 && flag;"), ("non-bool-logical-operand", "let bb: bool = flag || v64;"), ("non-bool-logical-operand", "let bb: bool = !v32;"),
-    ("redeclared-name", "let dup1: i32 = 1; let dup1: i32 = 2;"), ("redeclared-name", "let dup2: i32 = 1; const dup2: i32 = 2;"),
+    ("redeclared-name", "let dup1: i32 = 1; let dup1: i32 = 2;"), ("redeclared-name", "let cq := fn(x: i32) -> i32 { let x: i32 = 5; return x; };"),
+    ("redeclared-name", "let cr := fn(x: i32, x: i32) -> i32 { return x; };"), ("redeclared-name", "let cs := fn(y: i32) { let cz := fn(z: i32) -> i32 { let z: i32 = 1; return z; }; };"),
+    ("redeclared-name", "let rr: i32 = fails() catch ee { let ee: i32 = 1; return 0; } 0;"), ("redeclared-name", "let dup2: i32 = 1; const dup2: i32 = 2;"),
     ("too-many-initialisers", "let ta: [2]i32 = [1, 2, 3];"), ("too-many-initialisers", "let tb: [1]i32 = [1, 2];"),
     ("unhandled-result", "fails();"), ("unhandled-result", "let ur: i32 = fails();"),
     ("assign-mismatch", "loc = s;"), ("assign-mismatch", "loc = v64;"), ("assign-mismatch", "pp.X = v64;"), ("assign-mismatch", "dr[0] = s;"), ("assign-mismatch", "loc += v64;"),
@@ -118,7 +127,8 @@ def main():
         if need == "i32": cases.append(("%s|method-body|%s" % (rule, st), rule, host(st, "method"), True))
     # declaration-level classes
     DECLS = [("redeclared-name", "fn two(a: i32) -> i32 { return a; }\n"), ("redeclared-name", "fn dupp(a: i32, a: i32) -> i32 { return a; }\n"), ("redeclared-name", "type P struct { .Z: i32 };\n"),
-             ("redeclared-name", "fn shadow(v: i32) -> i32 { let v: i32 = 2; return v; }\n"), ("missing-return-value", "fn noret(a: i32) -> i32 { return; }\n"), ("undefined-name", "fn usesT(a: Nope) -> i32 { return 1; }\n"),
+             ("redeclared-name", "fn shadow(v: i32) -> i32 { let v: i32 = 2; return v; }\n"), ("redeclared-name", "fn (p: &'P) shadowm(v: i32) -> i32 { let v: i32 = 2; return v; }\n"),
+             ("redeclared-name", "fn (p: &'P) shadowr() -> i32 { let p: i32 = 2; return p; }\n"), ("missing-return-value", "fn noret(a: i32) -> i32 { return; }\n"), ("undefined-name", "fn usesT(a: Nope) -> i32 { return 1; }\n"),
              ("undefined-name", "fn retT() -> Nope { return 1; }\n"), ("wrong-return-value", "fn wr() -> i32 { return \"s\"; }\n"), ("error-return-from-non-result", "fn er() -> i32 { return \"e\"!; }\n"),
              ("too-many-initialisers", "const CA: [2]i32 = [1, 2, 3];\n")]
     for rule, d in DECLS:
